@@ -295,6 +295,39 @@ def noE3Alt (om : Bool) : Fields → Nat → Val → Bool
   | .cons _ _ r, i + 1, v => noE3Alt om r i v
 end
 
+mutual
+/-- when empty OPTIONAL members are not omitted (BER), finding E3 applies to nothing -/
+theorem noE3_false : ∀ (t : Ty) (v : Val), noE3 false t v = true
+  | .tagged _ _ _ t, v => by simp only [noE3]; exact noE3_false t v
+  | .prim _, v => by cases v <;> simp [noE3]
+  | .any, v => by cases v <;> simp [noE3]
+  | .seq fs, v => by
+      cases v <;> simp [noE3]
+      case seq vs => exact noE3F_false fs vs
+  | .set fs, v => by
+      cases v <;> simp [noE3]
+      case seq vs => exact noE3F_false fs vs
+  | .seqOf t, v => by
+      cases v <;> simp [noE3]
+      case seqOf vs => intro x _; exact noE3_false t x
+  | .setOf t, v => by
+      cases v <;> simp [noE3]
+      case seqOf vs => intro x _; exact noE3_false t x
+  | .choice fs, v => by
+      cases v <;> simp [noE3]
+      case choice i w => exact noE3Alt_false fs i w
+theorem noE3F_false : ∀ (fs : Fields) (vs : List Val), noE3F false fs vs = true
+  | .nil, _ => by simp [noE3F]
+  | .cons _ _ _, [] => by simp [noE3F]
+  | .cons k t r, v :: vs => by
+      simp only [noE3F, Bool.false_and, Bool.not_false, Bool.true_and, noE3_false t v, Bool.or_true,
+        noE3F_false r vs, Bool.and_self]
+theorem noE3Alt_false : ∀ (fs : Fields) (i : Nat) (v : Val), noE3Alt false fs i v = true
+  | .nil, _, _ => by simp [noE3Alt]
+  | .cons _ t _, 0, v => by simp only [noE3Alt]; exact noE3_false t v
+  | .cons _ _ r, i + 1, v => by simp only [noE3Alt]; exact noE3Alt_false r i v
+end
+
 structure EncRegion (cfg : EncCfg) (pf : Profile) (mc : Nat) : Prop where
   boolT : if pf.anyTrue then UInt8.ofNat cfg.boolTrue ≠ 0 else UInt8.ofNat cfg.boolTrue = 0xFF
   chunk : mc = 0 ∨ pf.segmented = true
